@@ -69,3 +69,51 @@ Proof.
   - discriminate.
   - intros (e' & H & _). discriminate.
 Qed.
+
+(* ---------- edits of the registry ---------- *)
+Section Edits.
+Context {E : Type}.
+Implicit Types reg : list (Z * E).
+Lemma lookup_set_same d e reg : lookup d (set_token d e reg) = Some e.
+Proof.
+  induction reg as [|[k x] reg IH]; cbn [set_token lookup]; [rewrite Z.eqb_refl; reflexivity|].
+  destruct (Z.eqb_spec k d) as [->|Hne]; cbn [lookup]; [rewrite Z.eqb_refl; reflexivity|].
+  destruct (Z.eqb_spec k d); [contradiction|exact IH].
+Qed.
+Lemma lookup_set_other d e reg d' : d' <> d -> lookup d' (set_token d e reg) = lookup d' reg.
+Proof.
+  intros Hne. induction reg as [|[k x] reg IH]; cbn [set_token lookup].
+  - destruct (Z.eqb_spec d d'); [congruence|reflexivity].
+  - destruct (Z.eqb_spec k d) as [->|Hk]; cbn [lookup].
+    + destruct (Z.eqb_spec d d'); [congruence|reflexivity].
+    + destruct (k =? d'); [reflexivity|exact IH].
+Qed.
+Lemma lookup_remove_same d reg : lookup d (remove_token d reg) = None.
+Proof.
+  induction reg as [|[k x] reg IH]; cbn [remove_token filter lookup fst]; [reflexivity|].
+  destruct (Z.eqb_spec k d) as [->|Hne]; cbn [negb]; [exact IH|]. cbn [lookup]. destruct (Z.eqb_spec k d); [contradiction|exact IH].
+Qed.
+Lemma lookup_remove_other d reg d' : d' <> d -> lookup d' (remove_token d reg) = lookup d' reg.
+Proof.
+  intros Hne. induction reg as [|[k x] reg IH]; cbn [remove_token filter lookup fst]; [reflexivity|].
+  destruct (Z.eqb_spec k d) as [->|Hk]; cbn [negb lookup].
+  - destruct (Z.eqb_spec d d'); [congruence|exact IH].
+  - destruct (k =? d'); [reflexivity|exact IH].
+Qed.
+(* a registration edits in place: the list keeps its length when the denom was listed, and lists the denom once if it did before *)
+Lemma set_token_length d e reg : lookup d reg <> None -> length (set_token d e reg) = length reg.
+Proof.
+  induction reg as [|[k x] reg IH]; cbn [set_token lookup length]; [congruence|].
+  destruct (k =? d); cbn [length]; [reflexivity|]. intros H. rewrite IH by exact H. reflexivity.
+Qed.
+End Edits.
+
+Lemma reg_lookup_is_lookup d reg : reg_lookup d reg = lookup d reg.
+Proof. induction reg as [|[k e] reg IH]; cbn; [reflexivity|]. destruct (k =? d); [reflexivity|exact IH]. Qed.
+
+(* after MsgDeregister the gate refuses the denom, after MsgRegister it follows the new entry *)
+Theorem gate_after_deregister reg d amt : transfer_gate (remove_token d reg) d amt = false.
+Proof. unfold transfer_gate. rewrite reg_lookup_is_lookup, lookup_remove_same. reflexivity. Qed.
+Theorem gate_after_register reg d e amt :
+  transfer_gate (set_token d e reg) d amt = negb (re_alias e) && has_perm (re_bits e) PERM_IBCEXPORT && (0 <? amt).
+Proof. unfold transfer_gate. rewrite reg_lookup_is_lookup, lookup_set_same. reflexivity. Qed.
